@@ -14,10 +14,22 @@ NOT_APPLICABLE = {
 }
 
 ENGINES = [
-    {'name': 'build', 'path': 'vlib/build.py', 'kind_free_text': 'flavour builds (mon/asan/tsan/mcv/nomc) of /repo working tree with hooks on',
-     'serves_properties': []},
-    {'name': 'projgen', 'path': 'vlib/gen/projgen.py', 'kind_free_text': 'seeded multi-file project generator with seeded findings',
-     'serves_properties': []},
+    {'name': 'build', 'path': 'vlib/build.py', 'kind_free_text': 'flavour builds (mon/asan/tsan/mcv/nomc) of /repo working tree with hooks on (cmake+ninja, flock-serialised)',
+     'serves_properties': ['C%02d' % i for i in range(1, 36)]},
+    {'name': 'core', 'path': 'vlib/core.py', 'kind_free_text': 'check context: seeded RNG, violation keys, known-findings matching, three-valued verdict, evidence writer',
+     'serves_properties': ['C%02d' % i for i in range(1, 37)]},
+    {'name': 'probe-runtime', 'path': 'harness/trace.h + vlib/probe.py', 'kind_free_text': 'online assertion monitor compiled into generated programs (ASan+UBSan executions; results only from sanitizer-clean runs)',
+     'serves_properties': ['C01', 'C02', 'C03', 'C04']},
+    {'name': 'progen', 'path': 'vlib/gen/progen.py', 'kind_free_text': 'typed generator of UB-free C/C++ programs rendered plain + instrumented; calibrated profile with finding-keyed exclusions',
+     'serves_properties': ['C01', 'C03', 'C04', 'C05', 'C13', 'C14', 'C28', 'C29', 'C33', 'C35']},
+    {'name': 'projgen', 'path': 'vlib/gen/projgen.py', 'kind_free_text': 'seeded multi-file project generator with seeded findings, shared headers, CTU shapes',
+     'serves_properties': ['C15', 'C16', 'C17', 'C18', 'C19', 'C20', 'C21', 'C22', 'C24', 'C25', 'C27', 'C28', 'C29']},
+    {'name': 'hooks', 'path': '/repo/lib/verifhooks.h', 'kind_free_text': 'H1 indirect in dump, H2 schedule perturbation, H3 crash points, H4 worker faults, H5 match-compiler verify counters',
+     'serves_properties': ['C01', 'C15', 'C16', 'C20', 'C21', 'C24', 'C33']},
+    {'name': 'models', 'path': 'vlib/models/', 'kind_free_text': 'executable readings of documented rules (pathmatch, suppress, severitygate, validrange, cfgselect, matchpattern, exprcmp, platforms)',
+     'serves_properties': ['C07', 'C09', 'C10', 'C12', 'C23', 'C24', 'C25', 'C27', 'C30', 'C31', 'C33']},
+    {'name': 'reference-compilers', 'path': 'gcc 12 / clang 14 (installed)', 'kind_free_text': 'reference semantics: execution of generated programs, clang JSON AST, static_assert evaluation, gcc -E',
+     'serves_properties': ['C01', 'C02', 'C03', 'C04', 'C07', 'C08', 'C09', 'C10', 'C11', 'C32', 'C35']},
 ]
 
 
